@@ -68,8 +68,10 @@ CLAUSES = {
     "Share.parse ∘ mnemonic round trip": "proved for all in-range fields (parse_mnemonic_roundtrip, slip39_table_facts)",
     "RS1024 detects any single-word error": "proved at every length and position (rs1024_single_error, share_single_word_error, "
                                             "rs1024_create_verifies)",
-    "RS1024 detects two- and three-word errors": "correspondence-only (UNPROVED comment in Props/C15.lean: needs the minimum distance of "
-                                                 "the RS code over GF(1024)); harness kinds share_parse:corrupt2/3 and predicate "
+    "RS1024 detects two- and three-word errors": "partial(two words at most 63 positions apart — every pair of positions of a 20/33-word "
+                                                 "share — proved: rs1024_two_errors_partial, kernel check two_check); three-word errors "
+                                                 "correspondence-only (UNPROVED comment in Props/C15.lean: needs the minimum distance of the "
+                                                 "RS code over GF(1024)); harness kinds share_parse:corrupt2/3, predicate "
                                                  "corrupted_share_rejected",
     "decrypt ∘ encrypt = id (Feistel)": "proved for every round function of the requested output length (decrypt_encrypt, encrypt_domain)",
     "O15a: k = 1 yields one share whatever n": "observation, modelled faithfully and proved (split_k1); not a finding",
